@@ -240,6 +240,20 @@ func genC09(r *Rnd, t Tier) *Case {
 		sc.Policies = append(sc.Policies, p)
 		stack = append(stack, len(sc.Policies)-1)
 	}
+	var pre []Op
+	switch r.Intn(10) {
+	case 0:
+		// time spent waiting for a permit outside the hedge, within the same attempt
+		sc.Policies = append(sc.Policies, PolicySpec{Kind: KLimiter, Smooth: true, Interval: time.Duration(r.Range(5, 30)) * unit, MaxWait: 1000 * unit})
+		stack = append([]int{len(sc.Policies) - 1}, stack...)
+		pre = append(pre, Op{Kind: "rl.try", Pol: len(sc.Policies) - 1, N: 1})
+	case 1:
+		// a hedge inside a hedge: the inner one begins later than the attempt it belongs to
+		o := genHedge(r, unit)
+		o.MaxHedges = 1
+		sc.Policies = append(sc.Policies, o)
+		stack = append([]int{len(sc.Policies) - 1}, stack...)
+	}
 	sc.Stacks = [][]int{stack}
 	// per-attempt durations and outcomes so that every completion order occurs
 	var s Script
@@ -262,7 +276,7 @@ func genC09(r *Rnd, t Tier) *Case {
 		s.Outcomes = append(s.Outcomes, o)
 	}
 	sc.Scripts = []Script{s}
-	sc.Clients = []Client{{Ops: []Op{{Kind: "exec", Entry: pick(r, EnGetExec, EnGetExec, EnRunExec, EnGetExecAsync, EnGet), Ctx: pick(r, CtxNone, CtxBackground)}}}}
+	sc.Clients = []Client{{Ops: append(pre, Op{Kind: "exec", Entry: pick(r, EnGetExec, EnGetExec, EnRunExec, EnGetExecAsync, EnGet), Ctx: pick(r, CtxNone, CtxBackground)})}}
 	terminating(sc)
 	return &Case{Sc: sc}
 }
